@@ -126,19 +126,16 @@ func parseThis(graphBuilder *AuthorizationModelGraphBuilder, parentNode graph.No
 	}
 
 	for _, directlyRelatedDef := range directlyRelated {
-		if directlyRelatedDef.GetRelationOrWildcard() == nil {
+		switch {
+		case directlyRelatedDef.GetRelationOrWildcard() == nil:
 			// direct assignment to concrete type
 			assignableType := directlyRelatedDef.GetType()
 			curNode = graphBuilder.getOrAddNode(assignableType, assignableType, SpecificType)
-		}
-
-		if directlyRelatedDef.GetWildcard() != nil {
+		case directlyRelatedDef.GetWildcard() != nil:
 			// direct assignment to wildcard
 			assignableWildcard := directlyRelatedDef.GetType() + ":*"
 			curNode = graphBuilder.getOrAddNode(assignableWildcard, assignableWildcard, SpecificTypeWildcard)
-		}
-
-		if directlyRelatedDef.GetRelation() != "" {
+		default:
 			// direct assignment to userset
 			assignableUserset := directlyRelatedDef.GetType() + "#" + directlyRelatedDef.GetRelation()
 			curNode = graphBuilder.getOrAddNode(assignableUserset, assignableUserset, SpecificTypeAndRelation)
